@@ -130,7 +130,9 @@ def run(c):
               "MC_PeerReactors (state classes x semantic message classes, sequences of 3) replayed, each followed by an aftermath under timeouts "
               "(mutex TryLock, an honest peer on the reactor's writer paths, Stop); (4) connection framing: every sequence of "
               "<= 4 hostile wire items replayed on a real MConnection, and every sequence of <= 3 sealed frames (length field 0 / 1025 / 2^32-1, broken "
-              "MAC, half a frame) on the real SecretConnection + MConnection stack; non-trivial = specified rejected-with-stop, or specified to have an effect")
+              "MAC, half a frame) on the real SecretConnection + MConnection stack; (5) every class of length prefix (0, 1, max, max+1, 2^31-1, 2^31, "
+              "2^32, 2^63-1, 2^63, 2^63+1, 2^64-1, overlong, 11-byte, truncated varints) against every delimited reader a peer reaches (protoio reader, "
+              "NodeInfo handshake in a child process, MConnection, secret-connection auth message); non-trivial = specified rejected-with-stop, or specified to have an effect")
     c.assumptions = ["4 validators of equal power, one-part blocks, static validator set (KardiaNode.tla abstractions)",
                      "gogo-protobuf's generated Unmarshal is trusted to be total (it is exercised by the mutants, not specified)",
                      "the huge classes of a proposal's PartsHeader.Total are replayed scaled down to 2^24..2^29 so that the real allocation can be measured",
@@ -253,4 +255,14 @@ def run(c):
         g = c.gotest("peer", test, env=dict(PEER_DUMP=dump, PEER_FR_CAPS="2000,3000", PEER_FR_MAXPAYLOAD=1024), timeout=3000, tag="replay " + tag)
         c.absorb(g)
         os.remove(dump)
+    # (5) the length prefix of delimited messages (byte strings around 2^31, 2^32, 2^63, 2^64, overlong and truncated
+    #     varints) against every reader a peer reaches: protoio reader, NodeInfo handshake (real transport upgrade in a
+    #     child process), MConnection packets, the secret connection's auth message
+    files = {"MC_LenPrefix.cfg": "SPECIFICATION Spec\nINVARIANT NoPanic\nINVARIANT OnlyFitting\nACTION_CONSTRAINT Dump\n"}
+    dump = os.path.join(c.scratch, "peer-lenprefix.dump")
+    r = c.tlc("peer", "MC_LenPrefix.cfg", module="MC_LenPrefix", files=files, dump_to=dump, workers=2, timeout=600, tag="MC_LenPrefix")
+    must(c, r, "MC_LenPrefix")
+    g = c.gotest("peer", "TestLenPrefix", env=dict(PEER_DUMP=dump), timeout=1200, tag="replay length prefixes on every delimited reader")
+    c.absorb(g)
+    os.remove(dump)
     c.exhaustive = True
